@@ -4,6 +4,8 @@ results cross the pool through pickle so that in-place mutation does not leak be
 "processes"; a worker exception is re-raised in the parent where the real pool re-raises it."""
 import pickle
 
+import numpy as _np
+
 from . import core
 
 
@@ -111,6 +113,13 @@ class SymPool:
         SymPool.instances += 1
         self.closed = False
         self.processes = (a[0] if a else k.get('processes', k.get('nodes')))
+        if self.processes is not None:
+            # multiprocessing.Pool's own argument checks
+            if not isinstance(self.processes, (int, _np.integer)) or isinstance(self.processes, bool):
+                if not core.is_sym(self.processes):
+                    raise TypeError("'%s' object cannot be interpreted as an integer" % type(self.processes).__name__)
+            if self.processes < 1:
+                raise ValueError('Number of processes must be at least 1')
         # the workers are forked now: they keep the working directory of this moment
         self.cwd = SymPool.fs.cwd if SymPool.fs is not None else None
 
